@@ -72,17 +72,20 @@ type Config struct {
 	KnownListed map[string]bool
 	SolverArgv  []string
 	StepBudget  int64
-	SampleCases int // how many paths to keep as Cases
-	InitAllow   func(string) bool
-	ZeroOK      func(string) bool
-	Trace       bool
-	MaxViol     int // stop collecting after this many violations (0 = 50)
-	QueryLog    func(worker int) interface{ Write([]byte) (int, error) }
-	StopOnViol  bool
-	Witness     bool
-	CrossEvery  int
-	Tolerant    func(string) bool
-	Stubs       map[string]string // function full name -> harness function name (same package as Entry)
+	// BudgetIsViolation: exceeding the step budget on a path is reported as a violation
+	// ("does not terminate promptly") instead of as an exhausted bound
+	BudgetIsViolation bool
+	SampleCases       int // how many paths to keep as Cases
+	InitAllow         func(string) bool
+	ZeroOK            func(string) bool
+	Trace             bool
+	MaxViol           int // stop collecting after this many violations (0 = 50)
+	QueryLog          func(worker int) interface{ Write([]byte) (int, error) }
+	StopOnViol        bool
+	Witness           bool
+	CrossEvery        int
+	Tolerant          func(string) bool
+	Stubs             map[string]string // function full name -> harness function name (same package as Entry)
 }
 
 type sharedWork struct {
@@ -195,6 +198,7 @@ func Explore(cfg *Config) (*Report, error) {
 					}
 				}
 			}
+			m.BudgetIsViolation = cfg.BudgetIsViolation
 			if cfg.StepBudget > 0 {
 				m.StepBudget = cfg.StepBudget
 			}
@@ -454,6 +458,11 @@ func (m *Machine) runPath(w Work, entry func()) (p *Path) {
 				case r.kind == "deadlock" || (r.kind == "crash" && !strings.HasPrefix(r.msg, "abort:")):
 					m.path = p
 					m.recordViolation(r.kind+": "+r.msg, p.model, "")
+					m.path = nil
+				case r.kind == "bound" && r.msg == "step budget exceeded" && m.BudgetIsViolation:
+					m.path = p
+					m.recordViolation(fmt.Sprintf("does not terminate promptly: still running after %d interpreter steps", m.StepBudget), p.model, "")
+					p.Violations[len(p.Violations)-1].Case.End = "timeout"
 					m.path = nil
 				case r.kind == "crash":
 					p.Inconclusive = append(p.Inconclusive, strings.TrimPrefix(r.msg, "abort:"))
